@@ -12,7 +12,10 @@ import (
 // loop, and is taken because the current element is absent. The elements of a Go list are independent (there is no
 // nil-terminated-list idiom), so an absent element is a reason to skip it, not to drop every element after it:
 // getB4Digest hashing buf.yaml and buf.lock from `[]ObjectData{yaml, lock}` would ignore a buf.lock whenever there is
-// no buf.yaml. A first-match search is not of this shape: its break follows a positive test or records the match.
+// no buf.yaml. The same holds for `{ return nil }` (all results nil) and for something read off the element
+// (`d := x.Descriptor(); if d.Info == nil { return nil }`): one file without source info is no reason to leave the
+// files after it unswept. A first-match search is not of this shape: its break follows a positive test or records
+// the match, and its return hands back what was found.
 func nilElementBreaks(pk *packages.Package) (loops int, bad []*ast.IfStmt) {
 	info := pk.TypesInfo
 	for _, f := range pk.Syntax {
@@ -34,13 +37,45 @@ func nilElementBreaks(pk *packages.Package) (loops int, bad []*ast.IfStmt) {
 				return true
 			}
 			loops++
+			// the element and what is read off it by the statements of the body, in order
+			derived := map[types.Object]bool{val: true}
+			mentions := func(e ast.Expr) bool {
+				found := false
+				ast.Inspect(e, func(m ast.Node) bool {
+					if id, ok := m.(*ast.Ident); ok && derived[info.Uses[id]] {
+						found = true
+					}
+					return !found
+				})
+				return found
+			}
 			for _, st := range rs.Body.List {
+				if as, ok := st.(*ast.AssignStmt); ok && as.Tok == token.DEFINE && len(as.Rhs) == 1 && mentions(as.Rhs[0]) {
+					for _, l := range as.Lhs {
+						if o := identObj(info, l); o != nil && len(as.Lhs) == 1 {
+							derived[o] = true
+						}
+					}
+					continue
+				}
 				is, ok := st.(*ast.IfStmt)
 				if !ok || is.Init != nil || is.Else != nil || len(is.Body.List) != 1 {
 					continue
 				}
-				br, ok := is.Body.List[0].(*ast.BranchStmt)
-				if !ok || br.Tok != token.BREAK || br.Label != nil {
+				leaves := false
+				switch t := is.Body.List[0].(type) {
+				case *ast.BranchStmt:
+					leaves = t.Tok == token.BREAK && t.Label == nil
+				case *ast.ReturnStmt:
+					// a success return: every result nil
+					leaves = len(t.Results) > 0
+					for _, r := range t.Results {
+						if !isNilIdent(info, r) {
+							leaves = false
+						}
+					}
+				}
+				if !leaves {
 					continue
 				}
 				be, ok := ast.Unparen(is.Cond).(*ast.BinaryExpr)
@@ -54,7 +89,8 @@ func nilElementBreaks(pk *packages.Package) (loops int, bad []*ast.IfStmt) {
 				if !isNilIdent(info, y) {
 					continue
 				}
-				if id, ok := x.(*ast.Ident); ok && info.Uses[id] == val {
+				// the element itself, or a member / accessor chain read off it (no other operands)
+				if chainOnDerived(info, x, derived) {
 					bad = append(bad, is)
 				}
 			}
@@ -62,6 +98,25 @@ func nilElementBreaks(pk *packages.Package) (loops int, bad []*ast.IfStmt) {
 		})
 	}
 	return loops, bad
+}
+
+// chainOnDerived: e is an identifier in the set, or a selector / argument-less call chain rooted at one.
+func chainOnDerived(info *types.Info, e ast.Expr, derived map[types.Object]bool) bool {
+	for {
+		switch t := ast.Unparen(e).(type) {
+		case *ast.Ident:
+			return derived[info.Uses[t]]
+		case *ast.SelectorExpr:
+			e = t.X
+		case *ast.CallExpr:
+			if len(t.Args) != 0 {
+				return false
+			}
+			e = t.Fun
+		default:
+			return false
+		}
+	}
 }
 
 // ruleNilBreak (NIL-ELEMENT-BREAK): zero instances are expected.
@@ -78,7 +133,7 @@ func ruleNilBreak(c *Ctx, rule string, pkgs []*packages.Package) {
 			if fd := p.EnclosingFuncDecl(is); fd != nil {
 				fn = relPkg(pk.PkgPath) + "." + declName(fd)
 			}
-			c.Ob(rule, fn+"/"+exprString(is.Cond), is.Pos(), false, true, "`if %s { break }` drops every later element of the list because this one is absent; `continue` skips just this one", exprString(is.Cond))
+			c.Ob(rule, fn+"/"+exprString(is.Cond), is.Pos(), false, true, "`if %s { break / return nil }` drops every later element of the list because this one lacks something; `continue` skips just this one", exprString(is.Cond))
 		}
 	}
 	c.Ob(rule, "packages-scanned", token.NoPos, n == 0, len(pkgs) > 0, "%d packages, %d value-range loops scanned, %d leave the loop on a nil element", len(pkgs), loops, n)
